@@ -335,6 +335,47 @@ def gen(repo, pins):
         enum_defs.append((ident, ty, rel, 8, variants, fwd, []))
         info.setdefault('fallible', []).append((ident, ty, fwd, bwd))
 
+    # --- hand-written: Header::msg_type (message type octet -> MsgType), a second decoder beside the typeenum! one
+    rel = 'src/bgp/message/mod.rs'
+    src = strip_comments(read(repo, rel))
+    hb = impl_block(src, r'impl\s*<\s*Octs\s*:\s*Octets\s*>\s*Header<Octs>')
+    fb, _ = find_fn(hb, 'msg_type')
+    if not norm(fb).startswith('match self.0.as_ref()[18]{'):
+        raise TieError('%s: Header::msg_type does not match on octet 18' % rel)
+    _, mb, _ = find_match(fb)
+    mt = [d for d in enum_defs if d[0] == 'te_bgp_message_mod_MsgType']
+    if len(mt) != 1:
+        raise TieError('typeenum! MsgType not found')
+    mt_variants, mt_singles = mt[0][4], mt[0][5]
+    mt_idx = {v: i for i, v in enumerate(mt_variants)}
+    hfwd = []
+    hcatch = False
+    for pat, expr in match_arms(mb):
+        e = norm(expr)
+        if re.fullmatch(r'[a-z_]\w*', pat.strip()):
+            if e != 'MsgType::Unimplemented(%s)' % pat.strip():
+                raise TieError('%s: Header::msg_type catch-all arm is %r' % (rel, e))
+            hcatch = True
+            continue
+        mm = re.fullmatch(r'MsgType::(\w+)', e)
+        if not mm or mm.group(1) not in mt_idx:
+            raise TieError('%s: Header::msg_type arm %r => %r' % (rel, pat, e))
+        for alt in pat.split('|'):
+            hfwd.append((parse_int(alt.strip()), mm.group(1)))
+    if not hcatch:
+        raise TieError('%s: Header::msg_type has no catch-all arm' % rel)
+    hbwd = []
+    seen = set()
+    for c, v in mt_singles:
+        if v not in seen:
+            seen.add(v)
+            hbwd.append((mt_idx[v], c))
+    A('(* %s: Header::msg_type (hand-written match on octet 18), read back through u8::from(MsgType) *)' % rel)
+    A('Definition te_header_msg_type : enum_tbl := mk_enum %s [] %s true.' % (
+        coq_list(['(%d, %d)' % (c, mt_idx[v]) for c, v in hfwd]), coq_list(['(%d, %d)' % (i, c) for i, c in hbwd])))
+    A('Definition te_header_msg_type_names : list string := %s.' % coq_list([coq_str(v) for v in mt_variants]))
+    enum_defs.append(('te_header_msg_type', 'Header::msg_type', rel, 8, mt_variants, hfwd, []))
+
     # --- Details: NotificationMessage::details and Details::raw
     rel = 'src/bgp/message/notification.rs'
     src = strip_comments(read(repo, rel))
